@@ -195,7 +195,13 @@ func (te *TimerEntry) run(ctx context.Context) error {
 
 func (ts *Timers) changed() {
 	st := ts.State()
-	if m, have := ts.c.Machines[TimersMachine]; have && m.State != nil && m.State.Bs != nil {
+	m, have := ts.c.Machines[TimersMachine]
+	if !have {
+		// Somebody deleted the timers machine.  Reporting a
+		// state for it would bring it back to life in a store.
+		return
+	}
+	if m.State != nil && m.State.Bs != nil {
 		// Keep the timers machine's own state current.
 		m.State.Bs["timers"] = st.Bs["timers"]
 	}
